@@ -111,15 +111,29 @@ fn check_derived(ctx: &mut Ctx, what: &str, derived: &ArrSpec, source: &ArrSpec,
         };
         let src: Vec<usize> = (0..=h).map(|x| s.number_arrivals(d(x))).collect();
         let der: Vec<usize> = (0..=h).map(|x| dd.number_arrivals(d(x))).collect();
-        (covered, src, der)
+        // far windows (hundreds to thousands of jobs): "never smaller at any interval length"
+        let mut far: Vec<u64> = vec![211, 461, 997, 2503];
+        if let ArrSpec::Periodic { t } | ArrSpec::Sporadic { t, .. } = &sv {
+            let j = if let ArrSpec::Sporadic { j, .. } = &sv { *j } else { 0 };
+            for k in 0..6u64 {
+                far.push((500 * t + k + 1).saturating_sub(j + 3));
+            }
+            far.push(450 * t + 1);
+            far.push(1001 * t + 1);
+        }
+        let farv: Vec<(u64, usize, usize)> = if matches!(&dv, ArrSpec::CurveFromPrefix { .. }) { vec![] } else { far.into_iter().map(|x| (x, s.number_arrivals(d(x)), dd.number_arrivals(d(x)))).collect() };
+        (covered, src, der, farv)
     });
     let case = json!({"derived": derived, "source": source, "h": h});
     match r {
         Err(Some(e)) => ctx.violation(&format!("{what}#panic"), &format!("{:?}: panic {e}", derived), "derived", case),
         Err(None) => ctx.violation(&format!("{what}#does-not-terminate"), &format!("{:?}: no answer within 20 s", derived), "derived", case),
-        Ok((covered, src, der)) => {
+        Ok((covered, src, der, farv)) => {
             if src[h as usize] > 2 {
                 tally.nontrivial += 1;
+            }
+            if let Some((x, sv_, dv_)) = farv.iter().find(|(_, a, b)| b < a) {
+                ctx.violation(&format!("{what}#smaller-than-source+far-window"), &format!("{:?}: derived curve gives {dv_} at delta={x}, its source {:?} gives {sv_}", derived, source), "derived-far", json!({"derived": derived, "source": source, "delta": x}));
             }
             if let Some(x) = (0..=h).find(|x| der[*x as usize] < src[*x as usize]) {
                 let beyond = x > covered;
@@ -295,6 +309,14 @@ pub fn replay(kind: &str, case: &Value) -> bool {
                 _ => "Curve::from(Sporadic)",
             };
             check_derived(&mut ctx, what, &dv, &sv, case["h"].as_u64().unwrap_or(50), &mut tally);
+        }
+        "derived-far" => {
+            let dv: ArrSpec = serde_json::from_value(case["derived"].clone()).unwrap();
+            let sv: ArrSpec = serde_json::from_value(case["source"].clone()).unwrap();
+            let x = case["delta"].as_u64().unwrap();
+            let r = catch(|| (sv.build().number_arrivals(d(x)), dv.build().number_arrivals(d(x))));
+            println!("replay: (source, derived) at delta {x}: {:?}", r);
+            return r.map(|(a, b)| b < a).unwrap_or(true);
         }
         "trace" => {
             let spec: ArrSpec = serde_json::from_value(case["spec"].clone()).unwrap();
